@@ -6,6 +6,9 @@ EXTENDS Revocation, Json
 Emit == Hist => PrintT(ToJson(hist))
 \* split Entry transaction: one witness per distinct final allocation
 EmitAlloc == (Hist /\ Procs # {} /\ nIssued = MaxCreds /\ Quiet) => PrintT(ToJson(hist))
+\* reachability witness (EXPECTED to be violated, Revocation.reach.dupretry.cfg): some Entry transaction hits the duplicate key
+\* of a page another transaction created meanwhile and has to start over
+NeverDuplicate == [][\A p \in Procs : ~(epc[p] = "locked" /\ epc'[p] = "idle" /\ nIssued' = nIssued)]_vars
 \* symmetry of the check configs whose Issuers / Nodes are model values
 Sym == Permutations(Issuers) \cup Permutations(Nodes)
 SymNodes == Permutations(Nodes)
